@@ -141,6 +141,33 @@ def laws(ctx):
         live = a.copy()
         rew = scenes.rewrap(a)
         e0 = sky_diff_units(c0, live, rew, px, py)
+        # the re-wrapped corrector must define the SAME tangent plane as the live one right away
+        # (before any further correction), in all four tangent-plane conversions
+        tl = np.array(live.det_to_tanp(px, py), dtype=float)
+        tr = np.array(rew.det_to_tanp(px, py), dtype=float)
+        wl = np.array(live.world_to_tanp(*live.det_to_world(px, py)), dtype=float)
+        wr = np.array(rew.world_to_tanp(*rew.det_to_world(px, py)), dtype=float)
+        ttol = tol0 * 10 * max(unit, 1e-3) if not jw else 1e-6
+        if float(np.max(np.hypot(*(tl - tr)))) > ttol or float(np.max(np.hypot(*(wl - wr)))) > ttol:
+            fail('tangent plane of a re-wrapped corrector differs from the live one before any further correction',
+                 det_to_tanp=float(np.max(np.hypot(*(tl - tr)))), world_to_tanp=float(np.max(np.hypot(*(wl - wr)))))
+        sl = np.array(c0.world_to_tanp(*live.tanp_to_world(tl[0], tl[1])), dtype=float)
+        sr = np.array(c0.world_to_tanp(*rew.tanp_to_world(tl[0], tl[1])), dtype=float)
+        if float(np.max(np.hypot(*(sl - sr)))) > ttol:
+            fail('tanp_to_world of a re-wrapped corrector differs from the live one',
+                 err=float(np.max(np.hypot(*(sl - sr)))))
+        # a correction defined in a reference plane, applied to live and re-wrapped alike
+        if rng.random() < 0.5:
+            rref, _ri = c02.gen_ref(rng, c0, info)
+            runit = rref.tanp_center_pixel_scale if scenes.is_jwst(rref) else 1.0
+            gr = c02.gen_corr(rng, runit, False)
+            l2 = live.copy()
+            r2 = scenes.rewrap(a)
+            l2.set_correction(gr.M.tolist(), gr.t.tolist(), ref_tpwcs=rref)
+            r2.set_correction(gr.M.tolist(), gr.t.tolist(), ref_tpwcs=rref)
+            er = sky_diff_units(c0, l2, r2, px, py)
+            if er > tol0 * 4 + (1e-7 if jw else 0.0):
+                fail('reference-plane correction on a re-wrapped corrector differs from the live one', err=er)
         # the corrected WCS handed to the new corrector is caller-owned: it must not change when the
         # new corrector is corrected, and replaying from it must give the same result again
         src_before = np.array(c0.world_to_tanp(*a.det_to_world(px, py)), dtype=float)
